@@ -1042,6 +1042,10 @@ spifconf_parse(spif_charptr_t conf_name, const spif_charptr_t dir, const spif_ch
         }
     }
     if (!(fp = spifconf_open_file(conf_name))) {
+        if (*orig_dir) {
+            /* Nothing will be parsed; go back to the directory we were called in. */
+            chdir((char *) orig_dir);
+        }
         return NULL;
     }
 	/* Line count starts at 1 because spifconf_open_file() parses the first line. */
